@@ -357,7 +357,7 @@ def reduced(rec):
         ('sens_on', lambda r: r.enable_sensitivities(True)),
         ('sens_off', lambda r: r.enable_sensitivities(False)),
         ('regimen', lambda r: r.set_dosing_regimen(dose=1.0, start=0.0, duration=0.5, period=2.0, num=3)),
-        ('rename', lambda r: r.set_parameter_names({r.parameters()[-1]: 'Q%d' % len(r.parameters())})),
+        ('rename', lambda r: r.set_parameter_names({r.parameters()[-1]: 'a much longer published name for the parameter Q%d' % len(r.parameters())})),
         ('outputs', lambda r: r.set_outputs([r.outputs()[0]])),
         ('simulate', lambda r: r.simulate(np.arange(1, r.n_parameters() + 1, dtype=float), [1.0])),
     ]
@@ -392,6 +392,16 @@ def reduced(rec):
                             msg = 'free parameters %s, the net configuration fixes %s and leaves %s free' % (list(r.parameters()), sorted(want_fixed), want_free)
                     if msg is None and bool(r.has_sensitivities()) != want_sens:
                         msg = 'sensitivities are %s, the net configuration has them %s' % ('enabled' if r.has_sensitivities() else 'disabled', 'enabled' if want_sens else 'disabled')
+                    if msg is None and nm == seq[-1]:
+                        # a copy behaves like its original at the moment of copying: same free parameters, same sensitivity request
+                        try:
+                            c_ = r.copy()
+                            ci, ri = c_.mechanistic_model(), r.mechanistic_model()
+                            if list(c_.parameters()) != list(r.parameters()) or bool(c_.has_sensitivities()) != bool(r.has_sensitivities()) or \
+                                    (r.has_sensitivities() and ci._simulator.sensitivities != ri._simulator.sensitivities):
+                                msg = 'the copy has the parameters %s and the sensitivity request %s; its original %s and %s' % (list(c_.parameters()), ci._simulator.sensitivities, list(r.parameters()), ri._simulator.sensitivities)
+                        except EXPECTED_ERRORS as ex:
+                            msg = 'copy() raises %r on a validly configured reduced model' % (ex,)
                     if msg:
                         from contracts import mech_native
                         wit = mech_native.reduced_witness(done, rec.seed)
